@@ -206,6 +206,39 @@ theorem foldl_entries (es : List (Bytes × Int)) (hw : ∀ e ∈ es, WFname e.1 
     simp only [List.map_cons, List.foldl_cons, step_entry acc e h1 h2,
       ih (fun x hx => hw x (List.mem_cons_of_mem _ hx)), List.append_assoc, List.singleton_append]
 
+/-! ### UTF-8: the encoded root list is ASCII, so `lines()` never stops early -/
+
+theorem validUtf8_ascii (l : Bytes) (h : ∀ b ∈ l, b < 128) : StrF.validUtf8 l = true := by
+  induction l with
+  | nil => simp [StrF.validUtf8]
+  | cons b l ih =>
+    have hb : b < 0x80 := h b (List.mem_cons_self ..)
+    unfold StrF.validUtf8
+    rw [if_pos hb]
+    exact ih (fun x hx => h x (List.mem_cons_of_mem _ hx))
+
+theorem takeWhile_all {α} (p : α → Bool) (l : List α) (h : ∀ x ∈ l, p x = true) : l.takeWhile p = l := by
+  induction l with
+  | nil => rfl
+  | cons a l ih =>
+    simp only [List.takeWhile_cons, h a (List.mem_cons_self ..), if_true,
+      ih (fun x hx => h x (List.mem_cons_of_mem _ hx))]
+
+theorem showInt_ascii (i : Int) : ∀ b ∈ showInt i, b < 128 := by
+  intro b hb
+  rcases showInt_bytes i b hb with h | h
+  · subst h; decide
+  · simp only [isDigit, Bool.and_eq_true, decide_eq_true_eq] at h
+    exact UInt8.lt_of_le_of_lt h.2 (by decide)
+
+theorem rowLine_ascii (e : Bytes × Int) (h : ∀ b ∈ e.1, b < 128) : ∀ b ∈ rowLine e, b < 128 := by
+  intro b hb
+  simp only [rowLine, List.mem_append, List.mem_cons] at hb
+  rcases hb with hb | hb | hb
+  · exact h b hb
+  · subst hb; decide
+  · exact showInt_ascii _ b hb
+
 theorem rootList_roundtrip (v : Int) (es : List (Bytes × Int)) (h : WFrootList v es) :
     fromExisting (encodeRootList v es) = ⟨v, es⟩ := by
   obtain ⟨hv, hes⟩ := h
@@ -218,7 +251,15 @@ theorem rootList_roundtrip (v : Int) (es : List (Bytes × Int)) (h : WFrootList 
       intro l hl
       obtain ⟨e, he, rfl⟩ := List.mem_map.mp hl
       exact rowLine_ok e (fun b hb => ((hes e he).1.1 b hb).1))
-  simp only [fromExisting, lines, henc, hlines, List.foldl_cons, step_version _ v hv,
+  have hall : ∀ l ∈ rowLine (exlt, v) :: es.map rowLine, StrF.validUtf8 l = true := by
+    intro l hl
+    rcases List.mem_cons.mp hl with h | h
+    · subst h; exact validUtf8_ascii _ (rowLine_ascii _ (show ∀ b ∈ exlt, b < 128 by decide))
+    · obtain ⟨e, he, rfl⟩ := List.mem_map.mp h
+      exact validUtf8_ascii _ (rowLine_ascii e (fun b hb => ((hes e he).1.1 b hb).2.2))
+  have htw : (rowLine (exlt, v) :: es.map rowLine).takeWhile StrF.validUtf8
+      = rowLine (exlt, v) :: es.map rowLine := takeWhile_all _ _ hall
+  simp only [fromExisting, utf8Lines, lines, henc, hlines, htw, List.foldl_cons, step_version _ v hv,
     foldl_entries es hes, List.nil_append]
 
 end Physis.Proofs.ExcelRootList
